@@ -41,6 +41,10 @@
                                 NFFT reaches the functional estimator only as its NFFT argument
      class_grid                 for every class except pdaniell, real and complex data, scale_by_freq off: stored psd entry k
                                 (NFFT = n) = entry c*k (NFFT = c*n) for every stored coarse entry, given grid_rel for the estimator
+     class_grid_periodogram, class_grid_correlogram, class_grid_arma2psd, class_grid_minvar, class_grid_mtm (unity/eigen),
+     class_grid_eigen           end to end: the estimator MODEL on the two grids followed by the class' store agrees at common
+                                frequencies (no grid_rel hypothesis left; same exceptions; stored ar/reflection/eigenvalues/weights equal)
+     class_grid_covers          every row of the table uses one of these six estimators, or is pdaniell
    NOT PROVED
      * adaptive multitaper without the equal-passes hypothesis: FALSE in general (the stopping test is grid-wide; the two runs may
        stop after different numbers of passes and then differ within the code's own tolerance) — search at rtol 1e-3;
